@@ -119,7 +119,13 @@ void check_legal_string (const char *s) {
  */
 char *strput (char *x, char *limit, const char *y) {
 #ifdef HAVE_STPNCPY
-  return stpncpy(x, y, limit - x);
+  /* stpncpy() does not terminate the destination when it has to cut the source */
+  if (x >= limit)
+    return limit - 1;
+  x = stpncpy(x, y, limit - x);
+  if (x == limit)
+    *--x = 0;
+  return x;
 #else
   while ((*x++ = *y++))
     {
